@@ -72,6 +72,23 @@ Definition sum_fracs_close (m24 : Z) (vs : list (Z * Z)) : bool :=
   let num := fold_right Z.add 0%Z (map (fun nd => fst nd * (dmax / snd nd))%Z vs) in
   vol_close m24 (num, dmax).
 
+(* the same with a tolerance 2^-k relative (round 5: femio's kernels now work relative to a local
+   point in float64: 2^-40 for float64 / integer coordinates, 2^-20 kept for float32 coordinates) *)
+Definition vol_close_k (k : Z) (m24 : Z) (nd : Z * Z) : bool :=
+  let '(n, d) := nd in
+  (Z.abs (24 * n - m24 * d) * 2 ^ k <=? (Z.abs m24 + 24) * d)%Z.
+
+Definition check_block_volumes_k (k : Z) (pos : Z -> C3) (t : etype) (es : list (Z * list Z))
+           (vs : list (Z * Z)) : bool :=
+  Nat.eqb (length es) (length vs)
+  && forallb (fun ev => vol_close_k k (elem_vol24 ZOps pos (t, fst (fst ev), snd (fst ev))) (snd ev))
+             (combine es vs).
+
+Definition sum_fracs_close_k (k : Z) (m24 : Z) (vs : list (Z * Z)) : bool :=
+  let dmax := fold_right Z.max 1%Z (map snd vs) in
+  let num := fold_right Z.add 0%Z (map (fun nd => fst nd * (dmax / snd nd))%Z vs) in
+  vol_close_k k m24 (num, dmax).
+
 (* --- OBJ --- *)
 Definition eqb_objline (a b : objline C3) : bool :=
   match a, b with
